@@ -145,6 +145,8 @@ func runC11(p *Prog, r *Report) {
 	c11Serve(p, r)
 	c11FreshCookie(p, r)
 	c11GetBackend(p, r)
+	// R5: the cookie the client sent is still on the request when the balancer reads it: the verbose request dump that runs first only reads (shared with C06.R6)
+	checkDumpReadOnly(p, r, "C11.R5")
 }
 
 func c11Codecs(p *Prog, r *Report) {
@@ -511,6 +513,34 @@ func c11FreshCookie(p *Prog, r *Report) {
 		}
 	}
 	r.Floor("C11.R3", n, 1, "cookie value stores in StickBackend")
+	// the cookie is ADDED to the response (http.SetCookie / Header.Add): Header.Set("Set-Cookie", ...) would wipe the
+	// cookies other layers (an outer sticky balancer, an application) have already put on the response
+	adds, sets := false, false
+	for _, c := range Calls(sb) {
+		cc := c.Common()
+		if ccIs(cc, pkgHTTP, "SetCookie") {
+			adds = true
+		}
+		if (ccIs(cc, pkgHTTP, "Header.Add") || ccIs(cc, pkgHTTP, "Header.Set")) && len(cc.Args) >= 2 {
+			if k, ok := constString(cc.Args[1]); ok && strings.EqualFold(k, "Set-Cookie") {
+				if ccIs(cc, pkgHTTP, "Header.Add") {
+					adds = true
+				} else {
+					sets = true
+				}
+			}
+		}
+	}
+	for _, b := range sb.Blocks {
+		for _, in := range b.Instrs {
+			if mu, ok := in.(*ssa.MapUpdate); ok {
+				if k, ok := constString(mu.Key); ok && strings.EqualFold(k, "Set-Cookie") {
+					sets = true
+				}
+			}
+		}
+	}
+	r.Check(adds && !sets, "C11.R3", "roundrobin.(*StickySession).StickBackend: the cookie is added to the response, not set over it", p.FuncPos(sb), "http.SetCookie (append)", "the affinity cookie is written with Header.Set / a map assignment (or not at all): Set-Cookie values already on the response (an outer balancer's fresh cookie) are wiped, the client never receives them")
 }
 
 func c11GetBackend(p *Prog, r *Report) {
